@@ -20,7 +20,7 @@ theorem compressedLimit_some (hs check c : Nat) : compressedLimit hs check (some
 
 /-- A Block whose bytes after the header are Compressed Data ++ Block Padding ++ Check is accepted, provided the raw
     decoder stops by itself at the end of the Compressed Data and the size fields (if present) are the real sizes. -/
-theorem blockDecode_complete (E : Env) (check : Nat) (ign : Bool) (hs : Nat) (h : BlockHeader)
+theorem blockDecode_complete_enc (E : Env) (check : Nat) (ign : Bool) (hs : Nat) (h : BlockHeader)
     (p x rest : List UInt8) (cap : Nat)
     (hcs : h.compressedSize = none ∨ h.compressedSize = some p.length)
     (hus : h.uncompressedSize = none ∨ h.uncompressedSize = some x.length)
@@ -237,7 +237,7 @@ theorem streamFooterEncode_ok (f : StreamFlags) (bs : Nat) (b : List UInt8) (h :
       · exact ⟨by omega, hbs, by omega⟩
     · simp [hbs] at h
 
-theorem indexAndFooter_complete (hdr : StreamFlags) (blocks : HashInfo) (hok : RecordsOk blocks)
+theorem indexAndFooter_complete_enc (hdr : StreamFlags) (blocks : HashInfo) (hok : RecordsOk blocks)
     (hcnt : blocks.length ≤ VLI_MAX) (hlen : (indexEncode blocks).length = indexHashSize blocks)
     (ftr t : List UInt8) (hf : streamFooterEncode hdr (indexHashSize blocks) = .ok ftr) :
     indexAndFooter hdr blocks (indexEncode blocks ++ ftr ++ t)
@@ -300,7 +300,7 @@ theorem BlockList.data_cons (x bytes : List UInt8) (u : Nat) (bl : BlockList) :
 theorem BlockList.bytes_cons (x bytes : List UInt8) (u : Nat) (bl : BlockList) :
     BlockList.bytes ((x, bytes, u) :: bl) = bytes ++ BlockList.bytes bl := by simp [BlockList.bytes]
 
-theorem blocksLoop_complete (E : Env) (fl : Flags) (hdr : StreamFlags) (tail : List UInt8) (sT : SRes)
+theorem blocksLoop_complete_enc (E : Env) (fl : Flags) (hdr : StreamFlags) (tail : List UInt8) (sT : SRes)
     (ht0 : ∃ t', tail = 0 :: t') (hsT : sT.ret = .streamEnd) :
     ∀ (bl : BlockList) (fuel : Nat) (pre : HashInfo) (cap : Nat),
       (∀ q ∈ bl, GoodBlock E hdr.check q.1 q.2.1 q.2.2) →
@@ -360,7 +360,7 @@ theorem blocksLoop_complete (E : Env) (fl : Flags) (hdr : StreamFlags) (tail : L
       simp only []
       rw [List.drop_left' hlen]
       have hcz : hdr.check = 0 → checkSize hdr.check = 0 := by intro h0; rw [h0]; rfl
-      rw [blockDecode_complete E hdr.check fl.ignoreCheck _ h p x R cap hcs hus hpay hplim hx (by omega) hck hcz]
+      rw [blockDecode_complete_enc E hdr.check fl.ignoreCheck _ h p x R cap hcs hus hpay hplim hx (by omega) hck hcz]
       simp only [ne_eq, not_true_eq_false, if_false]
       rw [hu, hap1]
       simp only []
@@ -427,7 +427,7 @@ theorem GoodBlock.length_pos {E : Env} {check : Nat} {x bytes : List UInt8} {u :
 /-- A Stream put together the way the encoders do it — Stream Header, truthful Blocks, the canonical Index of their
     sizes, a Stream Footer with the real Index size — is accepted by the decoder model, decodes to the concatenation of
     the Blocks' data, and exactly its bytes are consumed. -/
-theorem streamOne_complete (E : Env) (fl : Flags) (first : Bool) (sf : StreamFlags) (hb ftr : List UInt8) (bl : BlockList)
+theorem streamOne_complete_enc (E : Env) (fl : Flags) (first : Bool) (sf : StreamFlags) (hb ftr : List UInt8) (bl : BlockList)
     (cap : Nat) (t : List UInt8)
     (hhdr : streamHeaderEncode sf = .ok hb)
     (hgood : ∀ q ∈ bl, GoodBlock E sf.check q.1 q.2.1 q.2.2)
@@ -449,8 +449,8 @@ theorem streamOne_complete (E : Env) (fl : Flags) (first : Bool) (sf : StreamFla
   rw [List.take_left' (by rw [hbl]; rfl), hdec]
   simp only []
   rw [List.drop_left' (by rw [hbl]; rfl)]
-  have hT := indexAndFooter_complete sf bl.recs hok hcnt hlen ftr t hf
-  have hloop := blocksLoop_complete E fl sf (indexEncode bl.recs ++ ftr ++ t)
+  have hT := indexAndFooter_complete_enc sf bl.recs hok hcnt hlen ftr t hf
+  have hloop := blocksLoop_complete_enc E fl sf (indexEncode bl.recs ++ ftr ++ t)
     { ret := .streamEnd, out := [], consumed := (indexEncode bl.recs).length + STREAM_HEADER_SIZE }
     (by obtain ⟨t', ht'⟩ := indexEncode_head bl.recs; exact ⟨t' ++ ftr ++ t, by rw [ht']; simp⟩) rfl bl
     ((hb ++ (bl.bytes ++ (indexEncode bl.recs ++ ftr ++ t))).length + 1) [] cap hgood hap
